@@ -223,6 +223,46 @@ func (g *c1mgen) value(depth int, l int, allowClose bool) *c1mx {
 	return s
 }
 
+// c1mBang collects the labels that carry `!` somewhere in the expressions.
+func c1mBang(into map[int]bool, es ...*c1mx) {
+	for _, e := range es {
+		for _, a := range e.args {
+			c1mBang(into, a)
+		}
+		for _, d := range e.decls {
+			if !d.embed && d.typ == '!' {
+				into[d.label] = true
+			}
+			c1mBang(into, d.v)
+		}
+	}
+}
+
+// c1mSanitize keeps bottom away from required fields: a required field holding bottom makes
+// the evaluator report the node as erroneous and switches its closedness check off (C05),
+// while the model keeps `l!: bot` as a constraint. Labels that are required somewhere hold
+// `_` everywhere, and such programs use no close().
+func c1mSanitize(e *c1mx, bang map[int]bool) *c1mx {
+	if len(bang) == 0 {
+		return e
+	}
+	if e.op == 'c' {
+		return c1mSanitize(e.args[0], bang)
+	}
+	for i, a := range e.args {
+		e.args[i] = c1mSanitize(a, bang)
+	}
+	for i := range e.decls {
+		d := &e.decls[i]
+		if !d.embed && bang[d.label] {
+			d.v = &c1mx{op: 'T'}
+		} else {
+			d.v = c1mSanitize(d.v, bang)
+		}
+	}
+	return e
+}
+
 // ---- projection of the implementation's value to the model's canonical form ------------
 
 func c1mInt(n *adt.Num) (string, bool) {
@@ -405,6 +445,9 @@ func c1ModelOps(c *Cfg, r *Rng) {
 		} else {
 			e = g.structExpr(1+i%3, true)
 		}
+		bang := map[int]bool{}
+		c1mBang(bang, e)
+		e = c1mSanitize(e, bang)
 		var toks []string
 		e.tokens(&toks)
 		var sb strings.Builder
